@@ -15,4 +15,5 @@ CONSTANTS
   MaxAtt = 3
   Crashes = TRUE
   StartBy = 16
+  HealOdds = 3
 CHECK_DEADLOCK FALSE
